@@ -19,8 +19,9 @@ log is fetched; an ended context or a head that did not come back ends the load 
 of the fetched entries only those of this log (F27) that the store does not hold yet (F36) and that
 the access controller and the signature check accept (F29) and that sit at the address of their content (F46; the address is computed, not written: F64, F66) are kept; when a limit is set and what was left
 out made the fetch keep too little, it is made again, longer - by what was left out, and at least twice as long (`Refetch.loopR`, `nextLen`: F57, F63, F67); they are merged WITHOUT a trim,
-and the trim is asked for only once the listing is longer than the limit (F30) -/
-def loadJoin : List String := ["fetch", "ctxcheck", "headcheck", "ownlog", "held", "address", "addresserr", "addresscheck", "canappend", "verify", "enough", "again", "double", "merge", "listing", "trim"]
+and the trim is asked for only once the listing is longer than the limit (F30); when a head has failed, the
+view is rebuilt over what the others led to BEFORE the error is returned (`Store.loadReadable`, F61) -/
+def loadJoin : List String := ["fetch", "ctxcheck", "headcheck", "ownlog", "held", "address", "addresserr", "addresscheck", "canappend", "verify", "enough", "again", "double", "merge", "listing", "trim", "headerr", "readable", "failed"]
 
 /-- `events.handleSubscriber`, when its context ends (`BusClose`, `drain := true`): a goroutine keeps
 reading the bus subscription, THEN `Close` is called, and only after it has returned is the reader
@@ -34,6 +35,11 @@ written, so the check cannot fail because of the node or the context (F64: such 
 verdict; then, F66: made an error, it let one unencodable block fail every Load); an entry without an
 encoding is a verdict like a wrong address -; only then is the batch buffered for `Join` -/
 def processHash : List String := ["fetch", "headcheck", "ownlog", "address", "addresserr", "addresscheck", "buffer"]
+
+/-- `eventlogstore.Get`: the listing from the asked entry on, one entry long; BEFORE it answers, the entry
+the listing handed back is compared with the one asked for - the listing skips an entry that is not an
+operation and hands back the next one (`getOps_of_non_operation`, F69) -/
+def logGet : List String := ["listing", "asked", "held", "answer"]
 
 /-- `accesscontroller.VerifyEntryAuthor`: the entry is signed with the key of the identity it names; an
 identity of another type is handed to its own provider, which answers for its signature scheme; only
